@@ -186,6 +186,9 @@ func runXPropWith(t *testing.T, xp xProp, post func(rt *rapid.T, k *xCase)) {
 		if post != nil {
 			post(rt, &k)
 		}
+		if k.Text != "" {
+			c.Class("respelled-text")
+		}
 		c.EvalN(len(ok) * len(k.Msgs))
 		for _, l := range ok {
 			c.Class("lang:" + l)
